@@ -24,6 +24,8 @@ DECIDED_R7 = ('Round 7: the authenticated message is the unaltered piece from th
 DECIDED = DECIDED + ' ' + DECIDED_R7
 DECIDED_R8 = ('Round 8: every return of headerlist lies behind the cookie emission; the per-thread response is reset only before hooks and handler run; premise C09.c (apply() does not write the applied response); a difference count with abs(len(a) - len(b)) is length-aware.')
 DECIDED = DECIDED + ' ' + DECIDED_R8
+DECIDED_R9 = ('Round 9: no memoising wrapper between `get_cookie` and the decoder (e); the cookie parts by `index` + slices (b).')
+DECIDED = DECIDED + ' ' + DECIDED_R9
 NOT_DECIDED = ('round trip of plain cookie text through http.cookies.SimpleCookie quoting (library value semantics); '
                'strength of HMAC-MD5 (assumed unforgeable without the secret).')
 ASSUMPTIONS = ['HMAC is unforgeable without the secret', 'base64.b64encode is canonical (one text per byte string)']
